@@ -72,6 +72,14 @@ def bijection(r, ids, kind):
         r.shuffle(vals)
     else:
         vals = [f"{'n' if kind == 'strs_n' else 'x'}{i}" for i in range(k)]
+        # some of the names are strings the library itself uses (fuzzing dictionary of the tree)
+        from ..dictionary import weighted
+        ws = weighted()
+        if ws and r.random() < 0.6:
+            for i in r.sample(range(k), min(k, r.randint(1, 4))):
+                cand = r.choice(ws)
+                if cand not in vals:
+                    vals[i] = cand
         r.shuffle(vals)
     return dict(zip(ids, vals))
 
@@ -324,6 +332,10 @@ def do_replica(sim, rec):
                 {f[n] for n in m.nodes} != set(B.nodes):
             w.stats["replica_construction_mismatch"] += 1
             return rec["actor"]
+        if r.random() < 0.15:
+            # "for all hypergraphs": a frozen one is a hypergraph with the same incidence relation
+            B.freeze()
+            w.probes["replica_frozen"] += 1
         names = r.sample(MEASURES, min(len(MEASURES), sim.cfg.get("n_measures", 5)))
         if not M_orderable(list(m.nodes)):
             # the simpliciality measures are defined for orderable node labels only
@@ -348,7 +360,11 @@ def do_replica(sim, rec):
             w.stats["measure:" + name] += 1
             fake = dict(rec, op="measure:" + name)
             if ea is not None or eb is not None:
-                if type(ea) is not type(eb):
+                # one side returns and the other raises, or one side is rejected by the library
+                # (a domain error) and the other fails otherwise.  Two *incidental* errors of
+                # different types (non-numeric weights met in a different order) are no verdict.
+                lib = [isinstance(x, Exception) and E.is_lib_exc(xgi, x) for x in (ea, eb)]
+                if (ea is None) != (eb is None) or lib[0] != lib[1]:
                     w.find({"C09"}, "measure_raises_on_one_replica_only", fake, "H",
                            f"{name}: original -> {type(ea).__name__ if ea else 'ok'} {ea or ''}; relabelled/reordered "
                            f"replica ({nk}/{ek}) -> {type(eb).__name__ if eb else 'ok'} {eb or ''}")
